@@ -110,6 +110,24 @@ for k, v in addenda3.items():
     e = checks[k]
     checks[k] = (e[0], e[1], e[2] + v, e[3], e[4])
 
+# extensions after the fourth round
+addenda4 = {'C01': ' The whole enumeration is evaluated twice in one process (answers must not depend on earlier evaluations).',
+ 'C02': ' A second pass evaluates every string and lattice value again with targets and sources in the opposite order.',
+ 'C03': ' Long lists (17-130 elements) and the extreme values of int as counts; three passes under the three sync.Pool policies of the shim (library built with its sync import redirected), with poisoned calls between them (callbacks that panic at their k-th invocation, unhashable values behind interface{}) each followed by a fixed probe battery.',
+ 'C05': ' Three passes under the three sync.Pool policies of the shim with poisoned calls (unhashable elements) each followed by a fixed probe battery; every result set is written to before the next operands are evaluated.',
+ 'C07': ' Bursts, drain and idle periods with a one-hook node pool under retaining sync.Pool policies.',
+ 'C10': ' Callback behaviours include unsubscribing a handle that is not registered before unsubscribing itself.',
+ 'C12': ' Spawn continues on an open actor below closed ancestors.',
+ 'C13': ' Timeouts of zero and below; one Ask object used for three AskChannel requests in a row.',
+ 'C15': ' The job in flight at Close may end with its own panic afterwards.',
+ 'C16': ' Three consecutive calls with different functions under retaining sync.Pool policies.',
+ 'C17': ' Built with the sync import of the root and network packages redirected to the shim: an interceptor that evaluates another JSON call between serialization and transmission, same MonadIO evaluated twice, under the three sync.Pool policies.',
+ 'C19': ' Two function-local record types that print alike with the same field names at different positions.',
+ 'C20': ' An invalid regex pattern in the equality family with every probe evaluated twice; a first Call that spreads one caller-owned slice with spare capacity into two curries.'}
+for k, v in addenda4.items():
+    e = checks[k]
+    checks[k] = (e[0], e[1], e[2] + v, e[3], e[4])
+
 not_yet = "check not built yet in this round (see DESIGN.md §9 build order); no claim made"
 
 m = {
